@@ -36,6 +36,28 @@ def _bootstrap():
     return repo, verif
 
 
+REACH_CASES = 12
+
+
+def _merge_reach(total, part):
+    for f, lines in (part or {}).items():
+        d = total.setdefault(f, {})
+        for ln, n in lines.items():
+            d[ln] = d.get(ln, 0) + n
+
+
+def _anchors(prop, verif_dir):
+    try:
+        with open(os.path.join(verif_dir, "properties.jsonl")) as fh:
+            for line in fh:
+                p = json.loads(line)
+                if p["id"] == prop:
+                    return [m["where"] for m in p["anchors"].get("mechanism", []) if m.get("where")]
+    except Exception:
+        pass
+    return []
+
+
 def run_worker(args):
     from pbmon.core import Ctx, HarnessError
     replay = None
@@ -51,6 +73,9 @@ def run_worker(args):
     scratch = tempfile.mkdtemp(prefix=f"pbmon-{args.prop}-")
     ctx.scratch = scratch
     teardown = None
+    from pbmon import inject
+    reach_total = {}
+    verif_dir = os.path.dirname(os.path.dirname(os.path.abspath(__file__)))
     try:
         teardown = mod.setup(ctx) if hasattr(mod, "setup") else None
         wls = mod.workloads(ctx)
@@ -63,7 +88,14 @@ def run_worker(args):
                 continue
             else:
                 idxs = range(si, ncases, sn)
+            reach_left = REACH_CASES if (si == 0 and replay is None) else 0
             for idx in idxs:
+                if reach_left > 0:
+                    reach_left -= 1
+                    if reach_left == REACH_CASES - 1:
+                        inject.tool().start_reach()
+                    if reach_left == 0:
+                        _merge_reach(reach_total, inject.tool().stop_reach())
                 if ctx.timed_out():
                     ctx.count(f"cases_skipped_out_of_time[{name}]", len(range(idx, ncases, sn)))
                     break
@@ -84,6 +116,18 @@ def run_worker(args):
                         break
                 ctx.evaluations += 1
                 ctx.count(f"cases[{name}]")
+            if inject.tool().reach is not None:
+                _merge_reach(reach_total, inject.tool().stop_reach())
+        if si == 0 and replay is None and not args.only:
+            anchors = _anchors(args.prop, verif_dir)
+            hits = inject.anchor_hits(reach_total, anchors)
+            ctx.note("anchor_reach", {"note": f"statement-start lines of pulsarbat executed during the first {REACH_CASES} cases of each workload "
+                                              "(worker 0), summed over the line ranges named in the property's anchors "
+                                              "(line numbers refer to the pinned source; 'fix:' commits shifted some by a few lines)",
+                                      "ranges": hits,
+                                      "files": {f: len(v) for f, v in reach_total.items()}})
+            if anchors and sum(h["hits"] for h in hits.values()) == 0:
+                ctx.inconclusive_because("reach witness: no anchored line of the property's mechanism was executed")
         if hasattr(mod, "finalize"):
             mod.finalize(ctx)
     finally:
